@@ -213,7 +213,10 @@ async def op(rec: Recorder, name: str, tmo: float | None, coro: Any) -> tuple[st
     return res, val
 
 
-def transport_case(tk: str, cut_at: int, kind: str, tmo: float | None, cut_delay_ms: int, warm: int = 0) -> dict[str, Any]:
+def transport_case(tk: str, cut_at: int, kind: str, tmo: float | None, cut_delay_ms: int, warm: int = 0,
+                   parked_reader: bool = False) -> dict[str, Any]:
+    """parked_reader: another task of the caller is blocked in read() (no timeout) on the same transport while the
+    judged write() with a caller timeout runs against the lost peer; only the write and the closes are judged."""
     rec = Recorder()
 
     async def main() -> None:
@@ -226,9 +229,19 @@ def transport_case(tk: str, cut_at: int, kind: str, tmo: float | None, cut_delay
                 await op(rec, "read", 1.0, tr.read(timeout=1.0))
             peer.cut_before_request()
             await settle()
-            await op(rec, "write", tmo, tr.write(REQ, timeout=tmo))
-            await op(rec, "read", tmo, tr.read(timeout=tmo))
-            await op(rec, "read", tmo if tmo is not None else 0.5, tr.read(timeout=tmo if tmo is not None else 0.5))
+            if parked_reader:
+                parked = asyncio.ensure_future(tr.read(timeout=None))
+                await settle()
+                await op(rec, "write", tmo, tr.write(REQ, timeout=tmo))
+                parked.cancel()
+                try:
+                    await parked
+                except BaseException:  # noqa: BLE001
+                    pass
+            else:
+                await op(rec, "write", tmo, tr.write(REQ, timeout=tmo))
+                await op(rec, "read", tmo, tr.read(timeout=tmo))
+                await op(rec, "read", tmo if tmo is not None else 0.5, tr.read(timeout=tmo if tmo is not None else 0.5))
             await op(rec, "close", None, tr.close())
             await op(rec, "close", None, tr.close())
         rec.add("Final")
@@ -246,7 +259,7 @@ def transport_case(tk: str, cut_at: int, kind: str, tmo: float | None, cut_delay
     notes = [e for e in rec.ev if e["e"] == "Note"]
     return {"cfg": {"ackTime": ACK[tk], "retries": 0, "expect": list(REPLY), "window": -1}, "ev": ev, "tk": tk,
             "cut_at": cut_at, "kind": kind, "tmo": tmo, "cut_delay": cut_delay_ms, "level": "transport", "notes": notes,
-            "warm": warm}
+            "warm": warm, "parked_reader": parked_reader}
 
 
 def client_case(tk: str, cut_at: int, kind: str, retries: int, restart_ms: int | None, cut_delay_ms: int,
@@ -342,7 +355,7 @@ def run(tier: str, seed: int) -> Report:
     seen: set[str] = set()
 
     def add(t: dict[str, Any]) -> None:
-        key = json.dumps([t["tk"], t["cfg"], t["cut_at"], t["kind"], t.get("cut_delay"), t.get("restart"), t.get("warm"), t.get("follow_up"), t.get("via_config"), t.get("mute_handshake"), t["ev"]])
+        key = json.dumps([t["tk"], t["cfg"], t["cut_at"], t["kind"], t.get("cut_delay"), t.get("restart"), t.get("warm"), t.get("follow_up"), t.get("via_config"), t.get("mute_handshake"), t.get("parked_reader"), t["ev"]])
         if key in seen:
             return
         seen.add(key)
@@ -364,6 +377,10 @@ def run(tier: str, seed: int) -> Report:
                         add(transport_case(tk, k, kind, tmo, delay))
                         if (tier == "thorough" and delay in (0, 100)) or (k % 4 == 0 and delay == 0):
                             add(transport_case(tk, k, kind, tmo, delay, warm=1))  # loss in the SECOND exchange
+        # a write with a caller timeout while another task of the caller is parked in read() on the silent peer
+        for wt in (0.3, 0.5, 1.0, 2.5):
+            add(transport_case(tk, -1, "Silence", wt, 0, parked_reader=True))
+            add(transport_case(tk, 0, "Silence", wt, 0, warm=1, parked_reader=True))
         # client level
         step = 1 if tier == "thorough" else 3
         for k in [-1] + list(range(0, total + 1, step)) + [total]:
